@@ -232,3 +232,36 @@ def run(chk, st, tier):
                                    "hand model of rle.go; the runs above tie that model to the code.")
     chk.assumptions += ["hooks parquet.VerifRLEEncode/VerifRLEDecode (build tag verif) call internal/rle exactly as writeLevels/readLevels do",
                         "bit-packing inside the RLE model is the translated bitpack.go tables (C17)"]
+
+
+def replay(chk, st, data):
+    if data.get("kind") == "rleenc":
+        w, ls = int(data["width"]), list(data["levels"])
+        lines = ["e rleenc %d %d %s" % (w, len(ls), " ".join(map(str, ls)))]
+        impl, model, _, _ = C.run_cases(lines, "C07-replay")
+        a = impl.get("e")
+        _, spec, _, _ = C.run_cases(["o specdec %d %s" % (w, a)], "C07-replay-o", impl_cmd=["true"])
+        pr = parse_runs(spec.get("o")) if spec.get("o") not in (None, "NONE") else None
+        ok = pr is not None and pr[1] == 0 and runs_values(pr[0])[:len(ls)] == ls and len(runs_values(pr[0])) - len(ls) < 8
+        chk.count(("replay", w, tuple(ls)))
+        chk.count(("replay-marker",))
+        if not ok:
+            chk.fail("replay-enc", "RLE encoding of width %d levels (len %d) = %s is not a well-formed stream of the levels" % (w, len(ls), (a or "")[:100]), data)
+        elif a != model.get("e"):
+            chk.broke("correspondence:C07", "replayed encoding differs from the model")
+        chk.sample({"replayed": lines[0][:200], "implementation": a})
+    else:
+        w, stream = int(data["width"]), data["stream"]
+        impl, model, _, _ = C.run_cases(["d rledec %d %s" % (w, stream)], "C07-replay")
+        a = impl.get("d")
+        chk.count(("replay", w, stream))
+        chk.count(("replay-marker",))
+        _, spec, _, _ = C.run_cases(["o specdec %d %s" % (w, stream)], "C07-replay-o", impl_cmd=["true"])
+        pr = parse_runs(spec.get("o")) if spec.get("o") not in (None, "NONE") else None
+        if pr is not None:
+            vals = runs_values(pr[0])
+            want = "OK %d %d%s" % (len(stream) // 2, len(vals), "".join(" %d" % v for v in vals))
+            if a != want:
+                chk.fail("replay-dec", "decoder on a well-formed stream returns %s" % (a or "")[:100], data)
+        chk.sample({"replayed": stream[:200], "implementation": (a or "")[:100]})
+    chk.coverage["rule"] = "replay of one stored level sequence / stream"
